@@ -113,7 +113,7 @@ def gen_simple_field(rng, cfg, name, metas, allow_repeat=True, in_inline=False):
             kinds.append("metaref")
     k = rng.choice(kinds)
     rep = cfg.allow_repeat and allow_repeat and rng.random() < 0.25
-    doc = "`%s doc`" % name if rng.random() < 0.3 else None
+    doc = ("`%s doc`" % name if rng.random() < 0.85 else "`%s %%s of 100%%`" % name) if rng.random() < 0.3 else None
     if k == "scalar":
         pool = [s for s in SCALARS if (cfg.allow_char or s != "char") and (cfg.allow_float or s[0] != "f")]
         t = rng.choice(pool)
@@ -279,7 +279,8 @@ def gen_program(rng, cfg=None):
         _dedupe(fields)
         for f in fields:
             if cfg.more_attrs and f["kind"] in ("length", "checksum") and rng.random() < 0.25:
-                f["doc"] = "`%s doc`" % f["name"]
+                # a doc is free text: printf verbs and a bare percent sign are ordinary characters in it
+                f["doc"] = ("`%s doc`" % f["name"]) if rng.random() < 0.6 else "`%s: at most 100%% of MTU, %%d bytes, 50%%%% `" % f["name"]
             if cfg.more_attrs and cfg.allow_tag and f["kind"] in ("ref", "match", "inline", "length", "checksum", "metaref") and rng.random() < 0.06:
                 f["tag"] = rng.randint(1, 999)
         for f in fields:
@@ -312,7 +313,9 @@ def gen_program(rng, cfg=None):
 
 def _len_type(rng):
     """a length field is usually unsigned; the grammar takes any type and signed integers are served by every target"""
-    return rng.choice(INTS) if rng.random() < 0.15 else rng.choice(UNSIGNED)
+    # not i8: the samples fin-protoc itself prints into the emitted tests easily exceed 127 bytes of payload, and a length
+    # that does not fit its field has no meaning in any target (C04 presupposes that it fits)
+    return rng.choice([t for t in INTS if t != "i8"]) if rng.random() < 0.15 else rng.choice(UNSIGNED)
 
 
 def _dedupe(fields):
